@@ -16,6 +16,10 @@ def sigPrefixes : List Layer → Sig → Except StackErr (List Sig)
     | .error e => .error e
     | .ok s' => (sigPrefixes ls s').map (s :: ·)
 
+/-- a missing *backward* value of layer `i` is recorded as `(i + BACK_OFFSET, name)`: backward input nodes are always optional
+(`detect_optionals` returns them), forward input nodes are optional or not according to `Sig.leafOpt` -/
+def BACK_OFFSET : Nat := 1000000
+
 /-- what travels backwards: name ↦ what it computes -/
 abbrev Back := List (String × Entry)
 
@@ -30,13 +34,14 @@ def Layer.inverseTerm (l : Layer) (pre : Sig) (b : Back) (f : String) (args : Li
       | some (.const v) => some (Entry.term (.const v))
       | some (.fn pf pargs) => l.termOf pre PARAM_FUEL (some pf) pargs
       | none => none
-    else some ((b.get a).getD (.broken [(l.index, a)]))
+    else some ((b.get a).getD (.broken [(l.index + BACK_OFFSET, a)]))
   es.map (combine (some f))
 
 inductive LoopErr where
   | notReversible          -- `ValueError('The layer is not reversible')`
   | stack (e : StackErr)
   | fieldError             -- a requested final name has no inverse path
+  | dependency             -- `DependencyError`: an output of the decorated graph lacks a *required* input
   deriving Repr, Inhabited
 
 /-- one layer, backwards (`BagContext.reverse`): its inverse fields, plus the names it inherits backwards and does not
@@ -48,7 +53,7 @@ def Layer.reverse (l : Layer) (pre : Sig) (b : Back) : Option Back :=
     let own := l.inverses.mapM fun (n, d) =>
       match d with
       | .fn f args => (l.inverseTerm pre b f args).map fun e => (n, e)
-      | .identity a => some (n, (b.get a).getD (.broken [(l.index, a)]))
+      | .identity a => some (n, (b.get a).getD (.broken [(l.index + BACK_OFFSET, a)]))
       | .const v => some (n, .term (.const v))
     own.map fun own =>
       own ++ b.filter fun (n, _) => l.backInherit.mem n && !(own.any (·.1 == n))
@@ -81,6 +86,13 @@ def loopback (ls : List Layer) (f : String) (inputs outputs final : List String)
     match reverseAll ((ls.zip pres).reverse) b0 with
     | none => .error (.stack .fieldError)
     | some b =>
+      -- `GraphCompiler._validate_optionals` looks at every output of the decorated graph, also those that were not asked for:
+      -- a missing forward input that is not optional (a private parameter of an inverse reads a name no earlier layer provides,
+      -- an argument of `f` that does not exist) makes the whole decoration unusable
+      let required := fun (m : Nat × String) =>
+        m.1 < BACK_OFFSET && !(((last.leafOpt.find? fun p => p.1 == m).map (·.2)).getD false)
+      if b.any (fun (_, e) => match e with | .broken ms => ms.any required | .term _ => false) then .error .dependency
+      else
       let res := final.map fun n => (n, b.get n)
       if res.any fun (_, e) => match e with | some (.term _) => false | _ => true then .error .fieldError
       else .ok (res.filterMap fun (n, e) => e.map fun e => (n, e))
